@@ -18,7 +18,7 @@
    (names C20_pol_...), third part: Miniscript::translate_pk_ctx with hash translation (names C20_trh_...). *)
 From Coq Require Import Permutation.
 From Verif Require Import TranslateModel TranslateProofs EqOrdProofs.
-From Verif Require Import TranslatePolModel TranslatePolProofs TranslateHashModel TranslateHashProofs.
+From Verif Require Import TranslatePolModel TranslatePolProofs TranslateHashModel TranslateHashProofs TranslateHashDescProofs TranslateHashFailProofs.
 
 (* ---- the algorithm as coded computes the recursive translation: same result, same first error, no panic *)
 Theorem C20_tr_iter_refines : forall f chk m, translate_iter f chk m = translate f chk m.
@@ -259,15 +259,16 @@ Theorem C20_trh_complete : forall fp fhp chk m,
 Proof. exact iter_h_complete. Qed.
 Print Assumptions C20_trh_complete.
 
-(* a failure is caused by a key or hash of the term on which the mapping fails, or (everything mapped) by from_ast rejecting
-   a node of the substituted term.  (The finer statement C20_tr_fail_only, which names the rejected sub-term and the error,
-   is proved for the key-only model; here the weaker form is proved.) *)
-Theorem C20_trh_fail_only_partial : forall fp fhp chk m e,
+(* ---- tr_fail_only for the hash machine (same form as C20_tr_fail_only): a failure is either `TranslatorErr` on a key or
+        hash of the term that the mapping does not map, or `OuterErr c` for a sub-term all of whose keys and hashes are mapped
+        and whose substitution from_ast rejects with c *)
+Theorem C20_trh_fail_only : forall fp fhp chk m e,
   translate_iter_h (fun _ => fp) (fun _ => fhp) chk m = TErr e ->
-  (exists a, In a (matoms_pre m) /\ atom_ok fp fhp a = false) \/
-  ((forall a, In a (matoms_pre m) -> atom_ok fp fhp a = true) /\ ~ chk_ok chk (map_atoms (total fp) (total_h fhp) m)).
-Proof. exact iter_h_fail_only. Qed.
-Print Assumptions C20_trh_fail_only_partial.
+  (exists i a, e = TranslatorErr i /\ In a (matoms_pre m) /\ atom_ok fp fhp a = false) \/
+  (exists c s, e = OuterErr c /\ In s (subterms m) /\ (forall a, In a (matoms_pre s) -> atom_ok fp fhp a = true) /\
+               chk (map_atoms (total fp) (total_h fhp) s) = Some c).
+Proof. exact iter_h_fail_only_named. Qed.
+Print Assumptions C20_trh_fail_only.
 
 Theorem C20_trh_call_order : forall m, Permutation (matoms_rtl m) (matoms_pre m).
 Proof. exact matoms_perm. Qed.
@@ -282,3 +283,70 @@ Example C20_trh_nonvacuous :
   translate_iter_h (fun _ k => Some k) (fun n _ h => if N.eqb n 1 then None else Some h) chk m = TErr (TranslatorErr 1) /\
   matoms_rtl m = [AKey 2; AHash HHash160 [9]; AKey 0; AHash HSha256 [1; 2]].
 Proof. exact translate_h_examples. Qed.
+
+(* ---- type and script preservation for the hash machine: types do not depend on keys or hash values; the script of the
+        translation is the script of the original with the hash images substituted (a hash fragment pushes its hash
+        literally: `map_atoms (fun k => k) gh m` is m with every hash h of kind hk replaced by gh hk h) and the mapped keys'
+        bytes / key hashes / sorted pushes in place of the originals' *)
+Theorem C20_trh_structure_type : forall g gh m, type_of (map_atoms g gh m) = type_of m.
+Proof. exact type_of_map_atoms. Qed.
+Print Assumptions C20_trh_structure_type.
+
+Theorem C20_trh_structure_script : forall (ke ke' : keyenv) (g : key -> key) gh,
+  (forall k, kb ke' (g k) = kb ke k) -> (forall k, kh ke' (g k) = kh ke k) ->
+  (forall ks, map (kb ke') (ksort ke' (map g ks)) = map (kb ke) (ksort ke ks)) ->
+  forall m, enc ke' (map_atoms g gh m) = enc ke (map_atoms (fun k => k) gh m) /\
+            encode ke' (map_atoms g gh m) = encode ke (map_atoms (fun k => k) gh m).
+Proof. exact enc_map_atoms. Qed.
+Print Assumptions C20_trh_structure_script.
+
+Theorem C20_trh_hash_subst_keeps_keys : forall gh m, keys_pre (map_atoms (fun k => k) gh m) = keys_pre m.
+Proof. exact map_hashes_keys. Qed.
+Print Assumptions C20_trh_hash_subst_keeps_keys.
+
+(* ==================================================================================================================
+   Descriptor::translate_pk with hash translation, every descriptor kind (tr with its leaves): `translate_desc_h` of
+   Ms/TranslateHashModel.v; `dmap` substitution, `datoms` keys and hashes in text order, `desc_ok chk kk d` = every node of
+   every script passes from_ast in the wrapper's context and every single / internal key passes the context's check_pk. *)
+Theorem C20_desc_h_id : forall chk kk d,
+  desc_ok chk kk d -> translate_desc_h (fun _ k => Some k) (fun _ _ h => Some h) chk kk d = TOk d.
+Proof. exact desc_h_id. Qed.
+Print Assumptions C20_desc_h_id.
+
+Theorem C20_desc_h_comp : forall chk kk fp fhp gp ghp d d1 d2,
+  translate_desc_h (fun _ => fp) (fun _ => fhp) chk kk d = TOk d1 ->
+  translate_desc_h (fun _ => gp) (fun _ => ghp) chk kk d1 = TOk d2 ->
+  translate_desc_h (fun _ => comp_k fp gp) (fun _ => comp_h fhp ghp) chk kk d = TOk d2.
+Proof. exact desc_h_comp. Qed.
+Print Assumptions C20_desc_h_comp.
+
+Theorem C20_desc_h_structure : forall fp fhp chk kk d d',
+  translate_desc_h (fun _ => fp) (fun _ => fhp) chk kk d = TOk d' ->
+  d' = dmap (total fp) (total_h fhp) d /\ (forall a, In a (datoms d) -> atom_ok fp fhp a = true) /\ desc_ok chk kk d'.
+Proof. exact desc_h_structure. Qed.
+Print Assumptions C20_desc_h_structure.
+
+Theorem C20_desc_h_complete : forall fp fhp chk kk d,
+  (forall a, In a (datoms d) -> atom_ok fp fhp a = true) -> desc_ok chk kk (dmap (total fp) (total_h fhp) d) ->
+  translate_desc_h (fun _ => fp) (fun _ => fhp) chk kk d = TOk (dmap (total fp) (total_h fhp) d).
+Proof. exact desc_h_complete. Qed.
+Print Assumptions C20_desc_h_complete.
+
+Theorem C20_desc_h_fail_only : forall fp fhp chk kk d e,
+  translate_desc_h (fun _ => fp) (fun _ => fhp) chk kk d = TErr e ->
+  (exists a, In a (datoms d) /\ atom_ok fp fhp a = false) \/
+  ((forall a, In a (datoms d) -> atom_ok fp fhp a = true) /\ ~ desc_ok chk kk (dmap (total fp) (total_h fhp) d)).
+Proof. exact desc_h_fail_only. Qed.
+Print Assumptions C20_desc_h_fail_only.
+
+Example C20_desc_h_nonvacuous :
+  let chk := fun c => from_ast_chk c (fun k => if N.eqb k 31 then KUncompressed else KXOnly) (fun _ => None) (fun _ => None) in
+  let kk := fun k => if N.eqb k 31 then KUncompressed else KXOnly in
+  let d := DTr 0 [(1, MAndV (MVerify (MSha256 [1])) (MCheck (MPkK 1))); (1, MCheck (MPkK 2))] in
+  translate_desc_h (fun _ k => Some (k + 10)) (fun _ _ h => Some (5 :: h)) chk kk d
+    = TOk (DTr 10 [(1, MAndV (MVerify (MSha256 [5; 1])) (MCheck (MPkK 11))); (1, MCheck (MPkK 12))]) /\
+  translate_desc_h (fun _ k => Some k) (fun _ _ _ => None) chk kk d = TErr (TranslatorErr 1) /\
+  translate_desc_h (fun _ k => if N.eqb k 0 then None else Some k) (fun _ _ h => Some h) chk kk d = TErr (TranslatorErr 3) /\
+  translate_desc_h (fun _ k => Some (k + 31)) (fun _ _ h => Some h) chk kk d = TErr (OuterErr CUncompressed) /\
+  desc_ok chk kk d.
+Proof. exact translate_desc_h_examples. Qed.
